@@ -41,9 +41,11 @@ Definition body_end_ok_missing : list ename := [(NsHtml, "rb"); (NsHtml, "rtc")]
 Definition table_text_current_missing : list ename := [(NsHtml, "template")].
 
 (* D5  in table body, "does not have a tbody, thead, or tfoot element in table scope": html5ever tests
-   table, tbody, tfoot.  No input is known on which the answers differ (a table element is itself a table-scope
-   marker and in this mode a section element is above it unless the stack is the fragment/template case, where
-   both answers are "no"): reading difference. *)
+   table, tbody, tfoot.  With a table element on the stack the extra "table" hides the missing "thead"; without one
+   (template contents, fragment with context table) an open thead is not seen.
+   FINDING (tree differs): `<template><thead><caption>x` - the standard closes thead and inserts caption, html5ever
+   ignores <caption>;  fragment with context html:table, `<thead><tbody>` - tbody is dropped.
+   (Witnesses found by the tree-model check, its deviation class dev:11.) *)
 Definition table_body_sections_extra : list ename := [(NsHtml, "table")].
 Definition table_body_sections_missing : list ename := [(NsHtml, "thead")].
 
